@@ -125,9 +125,12 @@ def has_symmetric_extension(
     # (2-copy, non-PPT) symmetric extension that is much faster to use than semidefinite
     # programming [CJKLZB14]_.
     if level == 2 and not ppt and dim_x == 2 and dim_y == 2:
-        return np.trace(np.linalg.matrix_power(partial_trace(rho, [0]), 2)) >= np.trace(
-            np.linalg.matrix_power(rho, 2)
-        ) - 4 * np.sqrt(np.linalg.det(rho))
+        # All three quantities are real for a Hermitian `rho`; compare real parts (an ordering of complex round-off
+        # is meaningless) and do not let a determinant that is zero up to round-off turn negative under the root.
+        purity_b = np.real(np.trace(np.linalg.matrix_power(partial_trace(rho, [0]), 2)))
+        purity = np.real(np.trace(np.linalg.matrix_power(rho, 2)))
+        det = max(np.real(np.linalg.det(rho)), 0.0)
+        return bool(purity_b >= purity - 4 * np.sqrt(det) - tol)
 
     # Otherwise, use semidefinite programming to find a symmetric extension.
     # If the optimal value of the symmetric extension hierarchy is equal to 1,
